@@ -192,6 +192,16 @@ func (x *Exec) call(in ssa.Instruction, c *ssa.CallCommon, res ssa.Value) {
 	if selfVal != nil {
 		binders["self"] = *selfVal
 	}
+	if callee != nil {
+		// the callee's parameters may have been renamed since its contract was written
+		for o, n := range nameAliases(shortName(callee), callee) {
+			if v, ok := binders[n]; ok {
+				if _, taken := binders[o]; !taken {
+					binders[o] = v
+				}
+			}
+		}
+	}
 	// a closure called where it was made: its free variables are nameable too
 	if mc, ok := c.Value.(*ssa.MakeClosure); ok && callee != nil {
 		for i, fv := range callee.FreeVars {
@@ -278,6 +288,9 @@ func (x *Exec) call(in ssa.Instruction, c *ssa.CallCommon, res ssa.Value) {
 	}
 	if fc != nil {
 		cenv := &Env{x: x, st: x.st, old: pre, binders: binders, bound: map[string]Val{}, closed: true, results: results, resNames: rnames}
+		if callee != nil {
+			cenv.resAlias = nameAliases(shortName(callee), callee)
+		}
 		_, optTrusted := fc.Opts["trusted"]
 		for _, cl := range fc.Ensures {
 			if !fc.Trusted && !optTrusted && len(cl.Tags) == 0 {
